@@ -136,8 +136,13 @@ std::pair<std::string, Verdict> badValue(Rng& rng, char type) {
            {"5.5", REJECT}, {"0x10", REJECT}, {"5 5", REJECT}, {"+5", ABSTAIN},
            {" 5", ABSTAIN}, {"5.0", ABSTAIN}, {"5 ", ABSTAIN}, {"--5", REJECT},
            {"2147483648", type == 'l' ? ACCEPT : REJECT}};
-      if (type == 'u' || type == 'P')
+      if (type == 'u' || type == 'P') {
         c.push_back({"-1", REJECT});
+        // a sign is a sign also behind white space
+        c.push_back({" -5", REJECT});
+        c.push_back({"\t-7", REJECT});
+        c.push_back({" -2147483648", REJECT});
+      }
       if (type == 'P')
         c.push_back({"100", REJECT});
       if (type == 'l') {
